@@ -15,7 +15,7 @@ def cell(r):
 
 
 def name(r, i):
-    base = r.choice(["h", "col", "Name", "x_y", "A1", "last-name", "zip"])
+    base = r.choice(["h", "col", "Name", "x_y", "A1", "last-name", "zip", "user.email", "Acct No."])
     s = f"{base}{i}"
     return s
 
